@@ -282,6 +282,61 @@ def unit_calc_bin(U):
             U.prove("C12._bin_from_dict.%s#p%d" % (shape, p.index), text, p.pc, goal, {"start": s, "end": e}, replay=replay3)
 
 
+def unit_calc_bin_twice(U):
+    """calc_bin / astuple are functions of the feature alone: called for one feature and then for ANOTHER (any two
+    coordinate pairs, same process), the second answer is bins() of the second - nothing remembered from the first"""
+    it = Interp()
+    it.contracts[B.bins] = bins_contract
+    s1, e1, s2, e2 = z3.Int("start1"), z3.Int("end1"), z3.Int("start2"), z3.Int("end2")
+    vars_ = {"start1": s1, "end1": e1, "start2": s2, "end2": e2}
+
+    def run(ctx):
+        f1, f2 = blank_feature(), blank_feature()
+        f1.start, f1.end, f2.start, f2.end = SInt(s1), SInt(e1), SInt(s2), SInt(e2)
+        r1 = it.call(F.Feature.calc_bin, [f1], {})
+        r2 = it.call(F.Feature.calc_bin, [f2], {})
+        r1b = it.call(F.Feature.calc_bin, [f1], {})
+        return r1, r2, r1b
+
+    def replay(m):
+        cands = [(m.get("start1", 1), m.get("end1", 1), m.get("start2", 1), m.get("end2", 1)), (393217, 393224, 393216, 393224), (393216, 393224, 393217, 393224), (1, 10, 131073, 131080)]
+        for a1, b1, a2, b2 in cands:
+            f1, f2 = F.Feature(start=a1, end=b1), F.Feature(start=a2, end=b2)
+            got = (f1.calc_bin(), f2.calc_bin(), f1.calc_bin())
+            exp = (S.bin1(a1, b1, "gff"), S.bin1(a2, b2, "gff"), S.bin1(a1, b1, "gff"))
+            if got != exp:
+                return {"inputs": {"first": (a1, b1), "second": (a2, b2)}, "expected": exp, "observed": got, "violates": True}
+        return {"inputs": cands, "violates": False}
+    for p in U.explore(run, it):
+        ok = p.kind == "return" and all(isinstance(x, (SInt, int)) for x in p.value)
+        goal = z3.And(Eq(p.value[0], S.bin1(s1, e1, "gff")), Eq(p.value[1], S.bin1(s2, e2, "gff")), Eq(p.value[2], S.bin1(s1, e1, "gff"))) if ok else z3.BoolVal(False)
+        U.prove("C12.calc_bin.twice#p%d" % p.index, "calc_bin of a first and then of a second feature: each result is bins(start, end) of ITS feature (no state carried between calls)", p.pc, goal, vars_, replay=replay)
+
+
+def unit_bins_twice(U):
+    """bins() is a function of its arguments: a second call (other arguments, same process) answers for ITS arguments"""
+    it = Interp()
+    s1, e1, s2, e2 = z3.Int("start1"), z3.Int("end1"), z3.Int("start2"), z3.Int("end2")
+    vars_ = {"start1": s1, "end1": e1, "start2": s2, "end2": e2}
+
+    def run(ctx):
+        for a, b in ((s1, e1), (s2, e2)):
+            ctx.assume(z3.And(a >= 1, b >= a, b < 2 ** 29))
+        r1 = it.call(B.bins, [SInt(s1), SInt(e1)], {"one": True})
+        r2 = it.call(B.bins, [SInt(s2), SInt(e2)], {"one": True})
+        return r1, r2
+
+    def replay(m):
+        a1, b1, a2, b2 = (int(m.get(k, 1)) for k in ("start1", "end1", "start2", "end2"))
+        got = (B.bins(a1, b1, one=True), B.bins(a2, b2, one=True))
+        exp = (S.bin1(a1, b1, "gff"), S.bin1(a2, b2, "gff"))
+        return {"inputs": {"first": (a1, b1), "second": (a2, b2)}, "expected": exp, "observed": got, "violates": got != exp}
+    for p in U.explore(run, it):
+        ok = p.kind == "return" and all(isinstance(x, (SInt, int)) for x in p.value)
+        goal = z3.And(Eq(p.value[0], S.bin1(s1, e1, "gff")), Eq(p.value[1], S.bin1(s2, e2, "gff"))) if ok else z3.BoolVal(False)
+        U.prove("C12.bins.twice#p%d" % p.index, "two calls of bins(one=True) in a row: each result is the bin of ITS arguments (in-range gff coordinates)", p.pc, goal, vars_, replay=replay)
+
+
 def unit_stored_bin(U):
     """every statement that writes a row of `features` stores bin = bins(start, end) of the feature it writes:
     _DBCreator._insert / _replace (import, merge_strategy='replace') and FeatureDB._insert / _update (add_relation
@@ -407,7 +462,7 @@ def unit_boundary(U):
 
 UNITS = [("bins[gff,one]", _unit_bins("gff", True)), ("bins[gff,set]", _unit_bins("gff", False)),
          ("bins[bed,one]", _unit_bins("bed", True)), ("bins[bed,set]", _unit_bins("bed", False)),
-         ("lemma.nest", unit_nest), ("calc_bin", unit_calc_bin), ("stored_bin", unit_stored_bin),
+         ("lemma.nest", unit_nest), ("calc_bin", unit_calc_bin), ("calc_bin_twice", unit_calc_bin_twice), ("bins_twice", unit_bins_twice), ("stored_bin", unit_stored_bin),
          ("bounded.boundaries", unit_boundary)]
 
 
